@@ -117,6 +117,9 @@ def setup_state(run, fs, fdef):
 
 def run_path(run, fs, fdef, rep):
     cpre = setup_state(run, fs, fdef)
+    hook = run.opts.extra.get('after_setup')
+    if hook:
+        hook(run)       # e.g. constrain the symbolic pre-state to a concrete reachable state (pyvc.confirm)
     body = frontend.strip_docstring(fdef.body)
     res = NONE
     try:
@@ -173,6 +176,7 @@ def assume_invariants(run, o):
 
 def normal_exit(run, fs, res, rep):
     rep.normal_exits += 1
+    run.result_value = res
     key = fs.key
     selfv = run.self_obj
     if fs.kind == 'init':
